@@ -328,6 +328,7 @@ bool vh::run_case(std::string const& op, Toks& in, Out& impl, Out& ref)
             auto r2 = x;
             if (plus) { r2 += ec::days{d}; } else { r2 -= ec::days{d}; }
             if (!(r == r2)) { o.tok("routes-differ"); }
+            if (plus && !(ec::days{d} + x == r)) { o.tok("routes-differ"); }
             o.tok("ok").num(r.c_encoding());
         });
         auto sx = sc::weekday{w};
